@@ -26,6 +26,10 @@ class Reporter:
         self.bound = ''
         self.per_obligation = {}
         self.samples = []
+        self.known = []
+        self.known_hits = {}
+        self.known_example = {}
+        self.mod = None
 
     def check(self, obligation, ok, witness, nontrivial=True):
         self.evaluations += 1
@@ -38,8 +42,29 @@ class Reporter:
         if len(self.samples) < 5 and self.evaluations % 97 == 1:
             self.samples.append({'obligation': obligation, 'witness': repr(witness)[:300], 'ok': bool(ok)})
         if not ok:
-            if len(self.failures) < 200:
+            kf = self.classify(obligation, witness)
+            if kf is not None:
+                self.known_hits[kf] = self.known_hits.get(kf, 0) + 1
+                if kf not in self.known_example:
+                    self.known_example[kf] = {'obligation': obligation, 'witness': witness}
+            elif len(self.failures) < 200:
                 self.failures.append({'obligation': obligation, 'witness': witness})
+
+    def classify(self, obligation, witness):
+        """id of the known finding this failure belongs to, or None."""
+        for e in self.known:
+            if e['obligation'] != obligation:
+                continue
+            cls = e.get('witness_class')
+            if cls is None:
+                return e['id']
+            fn = getattr(self.mod, cls, None)
+            try:
+                if fn is not None and fn(witness):
+                    return e['id']
+            except Exception:
+                pass
+        return None
 
     def guard(self, obligation, fn, witness, nontrivial=True):
         """check that fn() returns truthy and does not raise."""
@@ -69,6 +94,11 @@ def main():
     sys.path.insert(0, os.path.join(args.repo, 'src'))
     mod = importlib.import_module(f'contracts.{args.pid.lower()}')
     R = Reporter(args.pid, os.path.dirname(args.out))
+    R.mod = mod
+    kpath = os.path.join(here, 'known_findings.json')
+    if os.path.exists(kpath):
+        with open(kpath) as f:
+            R.known = [e for e in json.load(f).get('findings', []) if e.get('property') == args.pid]
     t0 = time.time()
     mod.bounded(args.tier, args.seed, R)
     fails = []
@@ -81,7 +111,7 @@ def main():
         fails.append({'obligation': fl['obligation'], 'witness': fl['witness'], 'replay': path})
     res = {'evaluations': R.evaluations, 'distinct_nontrivial': R.distinct_nontrivial, 'rule': R.rule,
            'bound': R.bound, 'per_obligation': R.per_obligation, 'n_failures': len(R.failures),
-           'failures': fails, 'samples': R.samples, 'native_wall_s': round(time.time() - t0, 2)}
+           'failures': fails, 'known_hits': R.known_hits, 'samples': R.samples, 'native_wall_s': round(time.time() - t0, 2)}
     with open(args.out, 'w') as f:
         json.dump(res, f, indent=1, default=repr)
     sys.exit(1 if R.failures else 0)
